@@ -187,4 +187,38 @@ theorem ioOld_zero_on_oversize :
   ⟨⟨true, true, false, false, false, false, false, false, .unchanged⟩, [⟨1, .none, false⟩], INT_MAX + 1,
     by decide, by decide, by decide, by decide, by decide⟩
 
+/-- A client context whose handshake is not complete and whose policy refuses the peer (verify_name on,
+    no certificate or name not covered) stays refused: when `SSL_connect` answers 1 again, or anything
+    that `tls_ssl_error` does not map to 0, `tls_read`/`tls_write` fail again, leave the context
+    incomplete, and never reach `SSL_read`/`SSL_write` (only the one scripted answer is consumed). -/
+theorem refused_io (c : Conn) (r : SslRes) (rest : List SslRes) (n : Nat)
+    (hvalid : c.roleValid = true) (hcl : c.isServer = false) (hhc : c.hc = false) (hab : c.doAbort = false)
+    (hvn : c.verifyName = true) (hbad : c.peerCert = false ∨ c.nameOk = false)
+    (hr : r.ret = 1 ∨ (r.ret ≠ 1 ∧ (mapErr c r).1 ≠ 0)) :
+    (tlsIO c (r :: rest) n).rv ≠ 0 ∧ ¬ (tlsIO c (r :: rest) n).rv > 0 ∧
+    (tlsIO c (r :: rest) n).st.hc = false ∧ (tlsIO c (r :: rest) n).rest = rest := by
+  have hh : (r.ret = 1 → tlsHandshake c (r :: rest) =
+      (if c.peerCert = false then ⟨-1, { c with err := .noCert }, rest⟩ else ⟨-1, { c with err := .name }, rest⟩)) := by
+    intro h1
+    rcases hbad with hb | hb
+    · simp [tlsHandshake, hvalid, pop, h1, hcl, hvn, hb]
+    · by_cases hp : c.peerCert = false
+      · simp [tlsHandshake, hvalid, pop, h1, hcl, hvn, hp]
+      · simp [tlsHandshake, hvalid, pop, h1, hcl, hvn, hb, hp]
+  rcases hr with h1 | ⟨h1, hm⟩
+  · have := hh h1
+    unfold tlsIO
+    simp only [hab, hhc, Bool.false_eq_true, if_false, Bool.not_false, if_true, this]
+    by_cases hp : c.peerCert = false <;> simp [hp]
+  · have hs : tlsHandshake c (r :: rest) = ⟨(mapErr c r).1, (mapErr c r).2, rest⟩ := by
+      simp [tlsHandshake, hvalid, pop, h1]
+    have hrange := mapErr_range c r
+    have hhc' : (mapErr c r).2.hc = false := by simp [mapErr, hhc]
+    unfold tlsIO
+    simp only [hab, hhc, Bool.false_eq_true, if_false, Bool.not_false, if_true, hs]
+    have : ((mapErr c r).1 != 0) = true := by simpa using hm
+    simp only [this, if_true]
+    refine ⟨hm, ?_, hhc', trivial⟩
+    unfold StatusRv TLS_WANT_POLLIN TLS_WANT_POLLOUT at hrange
+    omega
 end UsualProofs.C17
